@@ -7,6 +7,9 @@
 
 #include <algorithm>
 
+#include <fenv.h>
+
+#include "ambient.h"
 #include "runner.h"
 #include "statics.h"
 #include "vsched.h"
@@ -151,6 +154,7 @@ struct OpSlot {
     int64_t fired[F_KINDS] = {0};
     std::vector<HeapViolation> heapV;
     const SharedInput *shared = nullptr;
+    bool roundChanged = false;
 };
 
 struct C18Outcome {
@@ -250,11 +254,26 @@ void C18Exec::prepare(C18Outcome &out) {
             eo.shared = s.shared;
             ctx.begin(t, ++g_opIdCounter, fillSeedOf(cs.caseSeed, t, (int)i), op.fault);
             heapBind(&ctx);
+            Ambient amb0 = ambientGet(true);
             schedSoloBegin();
             schedSetOpBudget(50000000);
             s.expected = execOp(SIM, op, eo);
             s.soloSteps = schedSoloEnd();
             heapBind(nullptr);
+            Ambient amb1 = ambientGet(true);
+            if (!(amb0 == amb1) && s.expected.status == CALL_RETURNED) {
+                JP v = mkViolation(
+                    "I6-ambient-state", op, t, (int)i,
+                    "the call changed hidden process/thread state and did not restore it: before " +
+                        amb0.describe() + ", after " + amb1.describe() +
+                        " (executed alone); every later call on this thread is affected",
+                    "");
+                if (out.violations.size() < 8) {
+                    v->set("case", caseWith({{0, 0}}));
+                    out.violations.push_back(v);
+                }
+            }
+            ambientRestore(true);
             if (s.expected.status != CALL_RETURNED)
                 heapAbandonOp(&ctx);
             else
@@ -316,6 +335,7 @@ void C18Exec::concurrent(const SchedConfig &scIn, C18Outcome &out) {
             s.got = Result();
             s.heapV.clear();
             s.failedConc = 0;
+            s.roundChanged = false;
         }
     for (int t = 0; t < T; t++)
         for (size_t i = 0; i < cs.progs[t].size(); i++) {
@@ -346,10 +366,13 @@ void C18Exec::concurrent(const SchedConfig &scIn, C18Outcome &out) {
             OpHeapCtx &c = ctxs[(size_t)t];
             c.begin(t, ++g_opIdCounter, fillSeedOf(cs.caseSeed, t, (int)i), op.fault);
             heapBind(&c);
+            int round0 = fegetround();
             schedSetOpBudget(s.budget);
             s.got = execOp(SIM, op, eo);
             schedSetOpBudget(0);
             heapBind(nullptr);
+            s.roundChanged = fegetround() != round0;
+            if (s.roundChanged) fesetround(round0);
             if (s.got.status != CALL_RETURNED)
                 heapAbandonOp(&c);
             else
@@ -375,6 +398,19 @@ void C18Exec::concurrent(const SchedConfig &scIn, C18Outcome &out) {
     out.pairs.insert(out.st.switchPairs.begin(), out.st.switchPairs.end());
     std::vector<TrapRec> traps = trapTake();
     trapDisarm();
+    {
+        // quiescence: every task has finished; the process locale must be what it was
+        Ambient now = ambientGet(true), def = ambientDefault();
+        if (now.locale != def.locale) {
+            Op dummy;
+            out.violations.push_back(mkViolation(
+                "I6-ambient-state", cs.progs[0].empty() ? dummy : cs.progs[0][0], 0, -1,
+                "after all tasks finished the process locale is '" + now.locale + "' instead of '" +
+                    def.locale + "': calls that save, change and restore it interfered",
+                "locale"));
+        }
+        ambientRestore(true);
+    }
 
     // ---- oracle ---------------------------------------------------------
     for (auto &tr : traps) {
@@ -430,6 +466,10 @@ void C18Exec::concurrent(const SchedConfig &scIn, C18Outcome &out) {
                     "I2-caller-buffer", op, t, (int)i,
                     "caller-owned buffer (guard bytes or a shared const input) was modified during the interleaved call",
                     ""));
+            if (s.roundChanged)
+                out.violations.push_back(mkViolation(
+                    "I6-ambient-state", op, t, (int)i,
+                    "the call left the thread's floating-point rounding mode changed", ""));
             for (auto &hv : s.heapV)
                 out.violations.push_back(mkViolation(
                     "I2-" + hv.kind, op, t, (int)i,
@@ -538,7 +578,7 @@ C18Case genCase(uint64_t runSeed, const TierCfg &cfg) {
         std::vector<Op> prog;
         for (int i = 0; i < L; i++) {
             Op op = gen.anyOp(scale, stormFn[0] >= 0 ? stormFn[rng.below(2)] : -1);
-            if (faults && fnIsC17(op.fn) && rng.chance(0.35)) {
+            if (faults && fnAllocates(op.fn) && rng.chance(0.35)) {
                 switch (rng.below(3)) {
                     case 0:
                         op.fault.kind = F1_NTH;
@@ -670,6 +710,14 @@ JP runC18(uint64_t runSeed, int64_t runIdx, const TierCfg &cfg) {
             sc.schedule = {{0, 0}, {p, 1}};
             // with three tasks the second one is itself preempted once by the third
             if (T > 2) sc.schedule.push_back({p + 1 + (int64_t)rng.below(200), 2});
+            // with two tasks, half of the time the second task is preempted too and
+            // the first one finishes in between (A..|B..|A....|B....)
+            if (T == 2 && rng.chance(0.5)) {
+                int64_t s1 = 0;
+                for (auto &s : e.slots[1])
+                    if (!s.dropped) s1 += s.soloSteps + 1;
+                if (s1 > 1) sc.schedule.push_back({p + 1 + (int64_t)rng.below((uint64_t)std::min<int64_t>(s1, 400)), 0});
+            }
             e.concurrent(sc, out);
             if (!out.violations.empty()) break;
         }
